@@ -80,6 +80,36 @@ func main() {
 				_ = os.WriteFile(os.Args[3]+"/"+strings.ReplaceAll(strings.TrimPrefix(f, repo+"/"), "/", "_"), b, 0o644)
 			}
 		}
+	case "checkall":
+		// checkall <repo>: every property's rules on one load of the tree as written (default
+		// configuration, no normal form, no evidence) — used by tools/mutation.py only
+		repo := os.Args[2]
+		p, err := core.Load(repo, core.Configs[0])
+		if err != nil {
+			fmt.Println("LOAD-ERROR", firstLineOf(err.Error()))
+			os.Exit(3)
+		}
+		loadKnownKeys(envOr("SPG_VERIF", "/verif"))
+		for _, id := range rules.IDs() {
+			pr := rules.Get(id)
+			rp := core.NewReport(id, p)
+			func() {
+				defer func() {
+					if x := recover(); x != nil {
+						rp.Unrecognised("R0", "-", "checker panic", "", fmt.Sprint(x))
+					}
+				}()
+				pr.RunLocked(p, rp)
+			}()
+			first := ""
+			for _, o := range rp.Obs {
+				if o.Status == core.Undecided || o.Status == core.Violated && !knownKeys[o.Key] {
+					first = o.Status + " " + o.Key + " @ " + o.Pos
+					break
+				}
+			}
+			fmt.Printf("%s bad=%d %s\n", id, nBad(rp), first)
+		}
 	case "list":
 		for _, id := range rules.IDs() {
 			fmt.Println(id)
@@ -342,4 +372,11 @@ func envOr(k, d string) string {
 		return v
 	}
 	return d
+}
+
+func firstLineOf(s string) string {
+	if i := strings.IndexByte(s, '\n'); i >= 0 {
+		return s[:i]
+	}
+	return s
 }
